@@ -41,8 +41,10 @@ FINISH = {"level": "proof", "assumptions": [
     "timeouts, transport errors and slow progress are counted, never a violation"]}
 
 PRIMS = ["lock", "rlock", "rwlock", "semaphore", "flow", "prioritylock", "event"]
-SERVER_EXE = os.path.join(BUILD, "slock-server")
-DRIVER_EXE = os.path.join(BUILD, "procdriver")
+import hashlib as _hashlib
+_TAG = "" if REPO == "/repo" else "-" + _hashlib.md5(REPO.encode()).hexdigest()[:8]   # a run against another source tree (VERIF_REPO) gets its own binaries
+SERVER_EXE = os.path.join(BUILD, "slock-server" + _TAG)
+DRIVER_EXE = os.path.join(BUILD, "procdriver" + _TAG)
 DRIVER_DIR = os.path.join(VERIF, "go", "procdriver")
 
 
@@ -55,17 +57,19 @@ def build_binaries(ctx):
     if rc != 0:
         ctx.broken.append({"kind": "tie", "name": "server build", "detail": out[-3000:]})
         ok = False
-    gosum = os.path.join(DRIVER_DIR, "go.sum")
-    try:
-        shutil.copyfile(os.path.join(REPO, "go.sum"), gosum)
-        rc, out, dt = sh(["go", "build", "-o", DRIVER_EXE, "."], cwd=DRIVER_DIR, env=GOENV, timeout=900)
-        log(f"go build procdriver rc={rc} {dt:.1f}s")
-        if rc != 0:
-            ctx.broken.append({"kind": "tie", "name": "procdriver build", "detail": out[-3000:]})
-            ok = False
-    finally:
-        if os.path.exists(gosum):
-            os.remove(gosum)
+    # the driver is an external module that must link THIS run's client package: build it from a private copy whose go.mod points at REPO
+    ddir = os.path.join(ctx.tmp, "procdriver")
+    shutil.rmtree(ddir, ignore_errors=True)
+    shutil.copytree(DRIVER_DIR, ddir)
+    gm = open(os.path.join(ddir, "go.mod")).read()
+    gm = "\n".join(("replace github.com/snower/slock => " + REPO) if l.startswith("replace github.com/snower/slock") else l for l in gm.split("\n"))
+    open(os.path.join(ddir, "go.mod"), "w").write(gm)
+    shutil.copyfile(os.path.join(REPO, "go.sum"), os.path.join(ddir, "go.sum"))
+    rc, out, dt = sh(["go", "build", "-o", DRIVER_EXE, "."], cwd=ddir, env=GOENV, timeout=900)
+    log(f"go build procdriver rc={rc} {dt:.1f}s")
+    if rc != 0:
+        ctx.broken.append({"kind": "tie", "name": "procdriver build", "detail": out[-3000:]})
+        ok = False
     return ok
 
 
@@ -242,6 +246,10 @@ def process_level(ctx):
                 dur = 5 if prim in ("prioritylock", "event") else 4
                 jobs.append((prim, "quick", driver_cmd(prim, seed + i, g, k, n, dur, os.path.join(root, f"q-{prim}"), addr, timeout_s=8),
                              os.path.join(root, f"q-{prim}")))
+                if prim in ("semaphore", "flow") and n != 1:
+                    # the capacity-1 boundary of the count normalisation (Count = n-1) is always exercised
+                    jobs.append((prim, "quick-n1", driver_cmd(prim, seed + 50 + i, 8, 2, 1, 3, os.path.join(root, f"q1-{prim}"), addr, timeout_s=8,
+                                                              extra=["-keysalt", "7"]), os.path.join(root, f"q1-{prim}")))
             run_batch(ctx, jobs, wall_limit=45)
         else:
             sv.start_follower()
